@@ -218,7 +218,11 @@ pub fn generate(rng: &mut Rng, tier: &str, _idx: u64) -> Scenario {
                     lo = lo.min(d.0);
                     hi = hi.max(d.0);
                 }
-                Op::Insert(d)
+                if rng.chance(1, 6) {
+                    Op::InsertViaYear(d)
+                } else {
+                    Op::Insert(d)
+                }
             }
             1 => Op::Contains(gen_query(rng, &cfg, &known)),
             2 => Op::FirstAfter(gen_query(rng, &cfg, &known)),
